@@ -1170,7 +1170,6 @@ func ruleSQLNUM(c *Ctx, r *Report) {
 	if pt == nil {
 		return
 	}
-	dr := c.driverRoles()
 	for _, t := range []struct {
 		role string
 		fn   *ssa.Function
@@ -1179,7 +1178,7 @@ func ruleSQLNUM(c *Ctx, r *Report) {
 			return e.Fn
 		}
 		return nil
-	}()}, {"param", dr.RangeParam}} {
+	}()}} {
 		if t.fn == nil {
 			continue
 		}
